@@ -15,7 +15,7 @@ CURRENT = None          # the open Log, or None
 
 
 class Log:
-    __slots__ = ('ev', 'clock', 'names', '_refs', 'classes')
+    __slots__ = ('ev', 'clock', 'names', '_refs', 'classes', 'cause_stack')
 
     def __init__(self, clock=None):
         self.ev = []
@@ -23,6 +23,7 @@ class Log:
         self.names = {}          # id(node) -> label
         self._refs = {}          # id(node) -> weakref (to detect id reuse)
         self.classes = {}        # id(node) -> class name
+        self.cause_stack = []    # ids of the metadata dicts of the enclosing update() calls
 
     def name(self, node, label):
         self.names[id(node)] = label
@@ -61,12 +62,19 @@ def _wrap_update(orig):
             return orig(self, x, who=who, metadata=metadata)
         me = log.label(self)
         wlab = log.label(who) if who is not None else None
-        log.add('IN', me, wlab, x, _snap_md(metadata))
+        if metadata and isinstance(metadata, list):
+            cause = frozenset(id(d) for d in metadata if isinstance(d, dict))
+        else:
+            cause = log.cause_stack[-1] if log.cause_stack else frozenset()
+        log.add('IN', me, wlab, x, _snap_md(metadata), cause)
+        log.cause_stack.append(cause)
         try:
             r = orig(self, x, who=who, metadata=metadata)
         except BaseException as e:
             log.add('RAISED', me, wlab, x, e)
             raise
+        finally:
+            log.cause_stack.pop()
         if asyncio.isfuture(r):
             idx = len(log.ev)
 
